@@ -9,10 +9,11 @@
    and every L; the only hypotheses are what the operating system guarantees about directory listings
    ([wf_listing], [wf_moves]: plain entry names) and, for the upgrade, that the feature types passed BY THE CALLER
    are plain names ([safe_opt]; the tool passes None and the types are then taken from the files). *)
-From Coq Require Import List Bool String.
+From Coq Require Import List Bool String Arith.
 From KV Require Import Eqb Str.
 From KV.Model Require Import MEffects.
 From KV.Proofs Require Import PEffects.
+From KV.Gen Require Import Tdtypes.
 Import ListNotations.
 Local Open Scope string_scope.
 Local Open Scope list_scope.
@@ -104,6 +105,19 @@ Proof.
 Qed.
 Print Assumptions C16_upgrade_writes_inside.
 
+(*      ... and, with NO hypothesis at all (any tree, any converters, any feature types passed by the caller, plain or
+        not): every effect of the upgrade is a file access; nothing is evaluated, spawned, imported or fetched *)
+Theorem C16_upgrade_no_forbidden_effect : forall (L : leaves) (t : tree) kt dt gt,
+  (forall e, In e (snd (upgrade_e L t kt dt gt)) -> exists p, e = Read p \/ e = Write p \/ e = Delete p) /\
+  ~ In Eval (snd (upgrade_e L t kt dt gt)) /\ ~ In Spawn (snd (upgrade_e L t kt dt gt)) /\
+  ~ In Import (snd (upgrade_e L t kt dt gt)) /\ ~ In Net (snd (upgrade_e L t kt dt gt)).
+Proof.
+  intros L t kt dt gt. pose proof (upgrade_all_access L t kt dt gt) as H.
+  split; [intros e I; specialize (H e I); destruct e as [p|p|p| | | | ]; try discriminate H; exists p; auto|].
+  repeat split; intros I; specialize (H _ I); discriminate H.
+Qed.
+Print Assumptions C16_upgrade_no_forbidden_effect.
+
 (* --- non-vacuity: concrete trees on which every clause bites *)
 Definition ex_leaves : leaves :=
   {| is_int := fun s => memb s ["0"; "1"; "4"; "128"; "640"; "480"];
@@ -179,3 +193,120 @@ Proof.
   - split; [vm_compute; tauto|].
     exists ["reconstruction"; "keypoints"; "../../../x"; "keypoints.txt"]. split; [vm_compute; tauto|reflexivity].
 Qed.
+
+(* --- 6. no partial match.  An accepted element type consists of lower-case ASCII letters, digits and dots, so a field
+        that contains any other byte is rejected wherever an accepted name may sit inside it: the str(type) /
+        repr(dtype) wrappers with anything after them, brackets, quotes, calls, spaces, upper case, and every
+        non-ASCII look-alike (each byte of a multi-byte UTF-8 character is >= 128). *)
+Theorem C16_parse_dtype_charset : forall s d, parse_dtype s = Some d -> all_chars dtype_char s = true.
+Proof. exact parse_dtype_charset. Qed.
+Print Assumptions C16_parse_dtype_charset.
+
+Theorem C16_parse_dtype_rejects_foreign_char : forall s c,
+  has_char c s = true -> dtype_char c = false -> parse_dtype s = None.
+Proof. exact parse_dtype_foreign_char. Qed.
+Print Assumptions C16_parse_dtype_rejects_foreign_char.
+
+Theorem C16_parse_dtype_rejects_type_repr : forall n tail,
+  parse_dtype ("<class '" ++ n ++ "'>" ++ tail)%string = None /\ parse_dtype ("dtype('" ++ n ++ "')" ++ tail)%string = None.
+Proof. intros n tail. split; [apply parse_dtype_class_repr | apply parse_dtype_dtype_repr]. Qed.
+Print Assumptions C16_parse_dtype_rejects_type_repr.
+
+(*      text AFTER an accepted name gives an accepted name only when it is the (at most two) digits of another
+        whitelisted name (int -> int16); text BEFORE one only when it is np. / numpy. and/or the u of uintN *)
+Theorem C16_parse_dtype_no_suffix : forall s t d d',
+  parse_dtype s = Some d -> parse_dtype (s ++ t)%string = Some d' -> all_chars is_digit t = true /\ String.length t <= 2.
+Proof. exact parse_dtype_extension. Qed.
+Print Assumptions C16_parse_dtype_no_suffix.
+
+Theorem C16_parse_dtype_tail_rejected : forall s t d c,
+  parse_dtype s = Some d -> has_char c t = true -> is_digit c = false -> parse_dtype (s ++ t)%string = None.
+Proof. exact parse_dtype_tail_rejected. Qed.
+Print Assumptions C16_parse_dtype_tail_rejected.
+
+Theorem C16_parse_dtype_no_prefix : forall h s d d',
+  parse_dtype s = Some d -> parse_dtype (h ++ s)%string = Some d' -> In h [""; "u"; "np."; "numpy."; "np.u"; "numpy.u"]%string.
+Proof. exact parse_dtype_head. Qed.
+Print Assumptions C16_parse_dtype_no_prefix.
+
+(* --- 7. the upgrade does not swallow an element type either: an upgrade that returns a value found, in each of the
+        three 1.0 descriptor files it converted, a first row of 3 fields with a whitelisted element type; otherwise the
+        error names the file and the field and nothing has been deleted or written for that folder *)
+Theorem C16_upgrade_invalid_dtype_is_an_error : forall (L : leaves) (t : tree) kt dt gt,
+  fst (upgrade_e L t kt dt gt) = Value ->
+  forall k names f, In k ["keypoints"; "descriptors"; "global_features"]%string ->
+    find_dir (t_dirs t) (d_feat k) = Some names -> find_file (t_files t) (p_old_cfg k) = Some f ->
+    exists r rest d, f_rows f = r :: rest /\ List.length r = 3 /\ is_int L (nth_s 2 r) = true /\
+                     parse_dtype (nth_s 1 r) = Some d.
+Proof. intros L t kt dt gt. exact (upgrade_value_dtypes_ok L true t kt dt gt). Qed.
+Print Assumptions C16_upgrade_invalid_dtype_is_an_error.
+
+Theorem C16_upgrade_invalid_dtype_names_file_and_field : forall (L : leaves) t k needs kp given names f r rest,
+  find_dir (t_dirs t) (d_feat k) = Some names -> find_file (t_files t) (p_old_cfg k) = Some f ->
+  old_version_ok (f_ver f) = true -> (needs = true -> kp <> None) ->
+  f_rows f = r :: rest -> List.length r = 3 -> is_int L (nth_s 2 r) = true -> parse_dtype (nth_s 1 r) = None ->
+  fst (snd (up_feature L true t k needs kp given)) = Some (EBadDtype (p_old_cfg k) (nth_s 1 r)) /\
+  forall e, In e (snd (snd (up_feature L true t k needs kp given))) -> e = Read (p_old_cfg k).
+Proof.
+  intros L t k needs kp given names f r rest D F OV NK R LN II PD.
+  destruct (up_feature_bad_dtype L true t k needs kp given names f r rest D F OV NK R LN II PD) as [A B].
+  split; [exact A|]. intros e I. destruct (B e I) as [E|[C _]]; [exact E|discriminate C].
+Qed.
+Print Assumptions C16_upgrade_invalid_dtype_names_file_and_field.
+
+Example C16_example_upgrade_type_repr :
+  upgrade_e ex_leaves
+    {| t_files := [ (p_sensors, {| f_ver := V10; f_rows := [] |});
+                    (p_old_cfg "keypoints", {| f_ver := V10;
+                       f_rows := [["SIFT"; "<class 'numpy.float32'>.__import__('os').system('touch X')"; "4"]] |}) ];
+       t_dirs := [(d_feat "keypoints", [])]; t_p3d_ok := false; t_kpt := []; t_moves := []; t_json := [] |} None None None
+  = (Error (EBadDtype (p_old_cfg "keypoints") "<class 'numpy.float32'>.__import__('os').system('touch X')"),
+     [Read p_sensors; Write p_sensors; Read (p_old_cfg "keypoints")]).
+Proof. vm_compute. reflexivity. Qed.
+
+(* --- 8. the whitelist of the model IS the behaviour of the code on a probe universe observed on this run
+        (Gen/Tdtypes.v, regenerated by harness/tables/dtypes.py from the tree under test): a few thousand candidate
+        fields (every public name of numpy and builtins, bare and prefixed; every accepted name in ~50 decorations)
+        were handed, in a real descriptor file, to the three 1.1 readers and to the 1.0 reader of the upgrade; each
+        reader accepted exactly the probes that parse_dtype accepts *)
+Definition accepts (s : string) : bool := match parse_dtype s with Some _ => true | None => false end.
+Definition agrees_on_universe (code_accepts : list string) : bool :=
+  forallb (fun s => Bool.eqb (memb s code_accepts) (accepts s)) dtype_probe_universe
+  && forallb (fun s => memb s dtype_probe_universe) code_accepts.
+
+Theorem C16_code_whitelist_agrees_on_probe_universe :
+  agrees_on_universe code_accepts_keypoints = true /\ agrees_on_universe code_accepts_descriptors = true /\
+  agrees_on_universe code_accepts_global_features = true /\ agrees_on_universe code_accepts_upgrade = true.
+Proof.
+  assert (H : agrees_on_universe code_accepts_keypoints && agrees_on_universe code_accepts_descriptors &&
+              agrees_on_universe code_accepts_global_features && agrees_on_universe code_accepts_upgrade = true)
+    by (vm_cast_no_check (eq_refl true)).      (* evaluated once, by the kernel, at Qed *)
+  exact (and4_true _ _ _ _ H).
+Qed.
+Print Assumptions C16_code_whitelist_agrees_on_probe_universe.
+
+Corollary C16_code_accepts_iff_model_accepts : forall s, In s dtype_probe_universe ->
+  forall l, In l [code_accepts_keypoints; code_accepts_descriptors; code_accepts_global_features; code_accepts_upgrade] ->
+  (In s l <-> exists d, parse_dtype s = Some d).
+Proof.
+  intros s U l IL.
+  assert (A : agrees_on_universe l = true).
+  { destruct C16_code_whitelist_agrees_on_probe_universe as [A1 [A2 [A3 A4]]].
+    cbn in IL. destruct IL as [<-|[<-|[<-|[<-|[]]]]]; assumption. }
+  unfold agrees_on_universe in A. apply andb_true_iff in A. destruct A as [A _].
+  rewrite forallb_forall in A. specialize (A s U). apply Bool.eqb_prop in A.
+  rewrite <- memb_In, A. unfold accepts. destruct (parse_dtype s) as [d|]; split; try discriminate; eauto.
+  intros [d E]; discriminate E.
+Qed.
+Print Assumptions C16_code_accepts_iff_model_accepts.
+
+Theorem C16_probe_universe_covers_whitelist :
+  (forall s, In s accepted_names -> In s dtype_probe_universe) /\ 3000 <= List.length dtype_probe_universe.
+Proof.
+  split.
+  - intros s I. apply memb_In.
+    assert (H : forallb (fun s => memb s dtype_probe_universe) accepted_names = true) by (vm_cast_no_check (eq_refl true)).
+    rewrite forallb_forall in H. exact (H s I).
+  - apply Nat.leb_le. vm_cast_no_check (eq_refl true).
+Qed.
+Print Assumptions C16_probe_universe_covers_whitelist.
